@@ -64,6 +64,8 @@ type Engine struct {
 	sortNames    map[string]bool
 	initHeaps    map[string]string
 	frameLinks   map[int]frameLink
+	droppedClause map[string]bool
+	dropped       []string
 	preserveAllCall bool // the call being executed is trusted to change nothing that existed before it
 	linked       map[string]bool
 	heapSorts    map[string]string
